@@ -198,6 +198,8 @@ class CoopLock:
 
     def release(self):
         s = CoopLock.current_sched
+        if s is not None and getattr(s, 'release_hook', None) is not None and s.me() is not None:
+            s.release_hook()        # still inside the critical section: nobody else has run since the state change
         if self._owner == 'ext':
             self._owner = None
             self._real.release()
